@@ -69,26 +69,38 @@ func raceClassOne(log string) string {
 	}
 	var keys []string
 	inLib := false
+	isStd := func(f string) bool { // frames of the Go distribution: no dot in the first path element
+		first := f
+		if i := strings.Index(f, "/"); i >= 0 {
+			first = f[:i]
+		}
+		return !strings.Contains(first, ".") && !strings.HasPrefix(f, "simworker/")
+	}
+	isLib := func(f string) bool {
+		return (strings.Contains(f, libModPath+"/") || strings.Contains(f, libModPath+"@")) && !strings.Contains(f, "/simhook/")
+	}
 	for _, st := range stacks {
+		// the access belongs to whoever made it: the innermost frame outside the Go distribution.
+		// Harness code (worker, seam package) called from the library is still harness code.
 		pick := ""
 		for _, f := range st {
-			if (strings.Contains(f, libModPath+"/") || strings.Contains(f, libModPath+"@")) && !strings.Contains(f, "/simhook/") {
+			if isStd(f) {
+				continue
+			}
+			if isLib(f) || strings.Contains(f, "ericlagergren/decimal") {
 				pick = f
 				inLib = true
-				break
 			}
-		}
-		if pick == "" {
-			for _, f := range st {
-				if strings.Contains(f, "ericlagergren/decimal") {
-					pick = f
-					inLib = true
-					break
-				}
-			}
+			break
 		}
 		if pick == "" && len(st) > 0 {
 			pick = st[0]
+			for _, f := range st {
+				if !isStd(f) {
+					pick = f
+					break
+				}
+			}
 		}
 		if i := strings.Index(pick, "@"); i >= 0 {
 			if j := strings.Index(pick[i:], "/"); j >= 0 {
